@@ -174,7 +174,8 @@ def run_gdb_session(ctx, rng, cands, trace=None):
         after_halt = False
         seq += 1
         order.append(['msg', idx])
-        ev = gs.event_for(e['ci'], e['rec'], rng, 1)
+        # (the thread the message arrives on is no reason to halt or not to halt; tier B replays use one thread)
+        ev = gs.event_for(e['ci'], e['rec'], rng, 1 if trace is not None else rng.choice([1, 1, 1, 2, 3]))
         n0, x0 = gs.mark()
         script.append(['msg', idx])
         stop, exc = gs.deliver(ev)
@@ -367,6 +368,67 @@ def run_tui(ctx, rng, n):
         ctx.count('tui_runs')
 
 
+def run_gdb_late(ctx, rng, cands):
+    """GDB attached to a program that is already running: the lines that created some objects were never seen, messages on
+    them stay unresolved.  Breakpoint `*`, one connection selected at the first halt: from then on the program is halted
+    at exactly the messages of that connection, resolved target or not."""
+    k = rng.randint(2, 3)
+    st = streams.build(rng, cands, k=k, n_each=(12, 40), tagged=True)
+    victim = rng.randrange(k)
+    cut = rng.randint(1, max(1, sum(1 for e in st['entries'] if e['ci'] == victim) // 2))
+    seen = 0
+    entries = []
+    for e in st['entries']:
+        if e['ci'] == victim and seen < cut:
+            seen += 1
+            continue
+        entries.append(e)
+    names = {}
+    for e in entries:
+        if e['ci'] not in names:
+            names[e['ci']] = streams.conn_name(len(names))
+    if victim not in names:
+        return
+    late_session(ctx, rng, [{'ci': e['ci'], 'side': st['sides'][e['ci']], 'rec': e['rec'], 'line': e['line']} for e in entries],
+                 {str(k2): v for k2, v in names.items()}, names[victim])
+
+
+def late_session(ctx, rng, entries, names, victim_name):
+    try:
+        gs = gdbsim.GdbSession(stop_text=None)
+    except RuntimeError:
+        return
+    for ci in names:
+        gs.new_connection(int(ci), [e['side'] for e in entries if e['ci'] == int(ci)][0])
+    gs.sim.command('wl', 'breakpoint *')
+    selection = None
+    script = []
+    case_base = {'late_lines': [e['line'] for e in entries], 'victim': victim_name, 'late_entries': entries, 'late_names': names}
+    for idx, e in enumerate(entries):
+        name = names[str(e['ci'])]
+        n0, x0 = gs.mark()
+        stop, exc = gs.deliver(gs.event_for(e['ci'], e['rec'], rng, rng.choice([1, 1, 2])))
+        script.append(['msg', idx])
+        ctx.ev()
+        case = dict(case_base, script=script[-40:], message_index=idx)
+        if exc is not None:
+            ctx.violation('stop-exception', '[late attach] line %d: %s: %r escaped stop()' % (idx, type(exc).__name__, exc), case)
+            return
+        want = selection is None or selection == name
+        if stop != want:
+            ctx.violation('no-halt-matching' if want else 'halt-not-matching', '[late attach] breakpoint *, connection %s selected: line %d %r of connection %s %s' % (
+                selection or '(none)', idx, e['line'][:110], name, 'left the program running' if want else 'halted the program'), case)
+            return
+        if stop:
+            if selection is None and name == victim_name:
+                gs.sim.command('wl', 'connection ' + name)
+                selection = name
+                script.append(['cmd', 'wl', 'connection ' + name])
+            gs.sim.command('wl', rng.choice(['resume', 'r']))
+            ctx.count('late_halts')
+    ctx.count('late_gdb_sessions')
+
+
 def run(ctx, spec):
     env.setup(spec)
     cands = wlxml.shipped(env.REPO)
@@ -376,6 +438,8 @@ def run(ctx, spec):
         return
     for i in range(spec['n']):
         run_gdb_session(ctx, ctx.rng, cands)
+        if i % 4 == 0:
+            run_gdb_late(ctx, ctx.rng, cands)
         if ctx.out_of_time():
             break
     run_tui(ctx, ctx.rng, spec['tui'])
@@ -391,6 +455,10 @@ def finalize(m):
 
 def replay(ctx, case):
     env.setup({'gdb_shim': True})
+    if 'late_entries' in case:
+        import random
+        late_session(ctx, random.Random(0), case['late_entries'], case['late_names'], case['victim'])
+        return
     if 'tui_commands' in case:
         from ..session import Session
         from frontends.tui import TerminalUI
